@@ -1,6 +1,9 @@
 import Qryn.Proofs.ProfDiffE2E
 import Qryn.Proofs.ProfWrap64
+import Qryn.Proofs.PprofRefs
 import Qryn.Gen.ProfTreeShape
+import Qryn.Gen.ProfExtShape
+import Qryn.Prof.ExtPins
 /-! # C16 — profile call trees conserve weight from ingest to flame graph
 
 Property theorems only. Model: `Qryn.Prof` (lean/Qryn/Prof/Tree.lean) —
@@ -22,6 +25,19 @@ variable (nid : Nat → Nat → Nat → Nat) (k : Bool) (na : Nat)
 /-- the translator found the loops of `postProcessProf`, `getNodeId`, `MergeTrie` and `BFS` in the statement
     shape the model mirrors (this module does not build otherwise) -/
 theorem model_shape_recognised : Gen.ProfTreeShape.recognised = true := rfl
+
+/-- the functions the models of the DIFF view and of the pprof payload merge mirror (`synchronizeNames`, `mergeNodes`,
+    `mergeChildren`, `computeFlameGraphDiff`, `ProfileMergeV2.Merge`/`Profile`, `RewriteTableV2.Get`, `sanitizeProfile`,
+    the key functions …) have the bodies the models were reviewed against, and the entry points wire them as modelled -/
+theorem ext_shape_pinned : Gen.ProfExtShape.bodyHashes = reviewedBodies ∧ Gen.ProfExtShape.entryPointsRecognised = true :=
+  ⟨by decide, rfl⟩
+
+/-- the four repairs of the pprof payload merge are in the source: the hashing helpers guard the empty stack / the
+    location without lines (no index fault), and every string index of a merged sample label and of the merged header is
+    taken through `strIdx` (`merge_refs_valid` is about the code with them) -/
+theorem pprof_repairs_present :
+    Gen.ProfExtShape.emptyStackGuard = true ∧ Gen.ProfExtShape.emptyLinesGuard = true
+      ∧ Gen.ProfExtShape.numUnitReindexed = true ∧ Gen.ProfExtShape.headerReindexed = true := ⟨rfl, rfl, rfl, rfl⟩
 
 /-- `getNodeId` never returns the root's id 0: the depth bits `min(depth,511) << 55` are non-zero
     (constants regenerated from golangPprof.go). Discharges `NeverRoot` for the real id function. -/
@@ -630,6 +646,61 @@ theorem merge_sums_int64 (R : List Row) :
   · show wrap e0.self = _
     rw [this.2, fsum, wrap_sum, List.filter_map, List.map_map, List.map_map]
     rfl
+
+
+/-! ## merging pprof payloads (`ProfileMergeV2.Merge` / `Profile`, the merge behind `SelectMergeProfile`)
+
+Model `Qryn.Prof.Pprof` (lean/Qryn/Prof/PprofMerge.lean): `mergeAll MState.empty Ps` = one `Merge` call per decoded
+payload, `result` = `Profile()`. `.ok` = no payload was refused (`compatible`) and none lacks a period type. -/
+
+open Qryn.Prof.Pprof in
+/-- **merge_conserves_values.** For ALL lists of payloads `Merge` accepts and every sample type position `j`: the values
+    of the merged profile's samples add up to the values of the samples of the payloads — those payloads `Merge` does
+    not skip (no sample, fewer than two strings), and of each the samples `sanitizeProfile` keeps (a sample with a wrong
+    number of values or a dangling location id is dropped there: `inputTotal`). -/
+theorem merge_conserves_values (Ps : List PProfile) (st : MState) (h : mergeAll MState.empty Ps = .ok st) (j : Nat) :
+    valTotal (result st).samples j = inputTotal Ps j := by
+  have := mergeAll_vals Ps MState.empty st valInv_empty h j
+  have hs : (result st).samples = st.samples := by
+    unfold result
+    cases hh : st.header with
+    | none => simp [this.1.none_empty hh]
+    | some hd => rfl
+  rw [hs, this.2]
+  simp [valTotal, MState.empty]
+
+open Qryn.Prof.Pprof in
+/-- **merge_refs_valid.** For ALL lists of payloads `Merge` accepts — whatever their own references look like — every
+    reference of the merged profile resolves: each location id of a sample is the id of a merged location, each
+    location's mapping id and each line's function id are ids of merged mappings / functions, and every string index
+    (function names, mapping file names and build ids, label keys / values / units, sample and period types,
+    drop_frames, keep_frames, default_sample_type) lies inside the merged string table. (With the four repairs of this
+    extension; before them label units and the three header strings did not.) -/
+theorem merge_refs_valid (Ps : List PProfile) (st : MState) (h : mergeAll MState.empty Ps = .ok st) :
+    Resolves (result st) :=
+  result_resolves st (mergeAll_refs Ps MState.empty st refsOK_empty h)
+
+open Qryn.Prof.Pprof in
+/-- **merge_incremental_pprof.** Merging is a left fold: merging `Ps ++ Qs` is merging `Qs` into the state `Ps` left
+    (associativity of the accumulation; `MergeProfiles` relies on it when it streams the rows). -/
+theorem merge_incremental_pprof (Ps Qs : List PProfile) (st0 : MState) :
+    mergeAll st0 (Ps ++ Qs) = (match mergeAll st0 Ps with | .ok st => mergeAll st Qs | .error e => .error e) := by
+  induction Ps generalizing st0 with
+  | nil => simp [mergeAll]
+  | cons p Ps ih =>
+    simp only [List.cons_append, mergeAll]
+    cases mergeOne st0 p with
+    | ok st1 => exact ih st1
+    | error e => rfl
+
+open Qryn.Prof.Pprof in
+/-- **merge_total_order_free.** Per sample type the merged total does not depend on the order of the payloads
+    (any permutation that is accepted as well). -/
+theorem merge_total_order_free (Ps Qs : List PProfile) (hp : Ps.Perm Qs) (st st' : MState)
+    (h : mergeAll MState.empty Ps = .ok st) (h' : mergeAll MState.empty Qs = .ok st') (j : Nat) :
+    valTotal (result st).samples j = valTotal (result st').samples j := by
+  rw [merge_conserves_values Ps st h, merge_conserves_values Qs st' h']
+  exact sum_perm_int (hp.map _)
 
 /-! ## the hypotheses are satisfiable (and hold on a concrete case with the real `getNodeId`) -/
 
